@@ -298,7 +298,7 @@ def flag_exact_value_dumper(data):
 
 
 def _extract_non_compound_cases_from_flag(enum: type[FlagT]) -> Sequence[FlagT]:
-    return [case for case in enum.__members__.values() if not math.log2(case.value) % 1]
+    return [case for case in enum.__members__.values() if case.value > 0 and not math.log2(case.value) % 1]
 
 
 class FlagByListProvider(BaseFlagProvider):
